@@ -43,7 +43,7 @@ pub fn groups_for(prop: Prop) -> &'static [&'static str] {
     match prop {
         Prop::C11 => &["fixed", "grid"],
         Prop::C19 => &["noalloc"],
-        Prop::C12 => &["general", "fixed", "align", "grid"],
+        Prop::C12 => &["general", "fixed", "align", "grid", "empty"],
         Prop::C10 => &["general"],
         Prop::C17 => &["general", "empty"],
         Prop::C18 => &["general"],
